@@ -107,8 +107,8 @@ def monitor(p, c, K, res):
     V, eq = dual_view(p, coef)
     f = [math.fsum(K[i][j] * coef[j] for j in range(n)) for i in range(n)]
     scale = max(1.0, max(sum(abs(K[i][j] * coef[j]) for j in range(n)) for i in range(n)))
-    frel = 2.0 ** -21 if c["ctype"] == "f" else 64 * EPSM            # float cache: entries are rounded to float
-    tol = frel * scale * (1 + math.log(it + 2)) + 256 * EPSM * scale * math.sqrt(it + 1)
+    frel = 2.0 ** -22 if c["ctype"] == "f" else 64 * EPSM            # float cache: entries (and warm-start products) are rounded to float
+    tol = frel * scale + 256 * EPSM * scale * math.sqrt(it + 1)
     eps = p["eps"]
     g = [lin - f[i] for (v, lo, hi, lin, i) in V]
     for (v, lo, hi, lin, i) in V:
@@ -159,12 +159,12 @@ def main():
                 for l in open(os.path.join(cdir, fn)).read().split("\n"):
                     if l.startswith("T "):
                         p, c = parse_case_line(l); items.append((p, c, "corpus_" + l.split()[1]))
-        for k in range(400 if big else 70):
+        for k in range(1500 if big else 150):
             p = gen_problem(ck.rng, "p%d" % k, big)
             for ci, c in enumerate(configs(p, ck.rng)): items.append((p, c, "p%d_%d" % (k, ci)))
     cf = os.path.join(tmpd, "cases.txt")
     open(cf, "w").write("\n".join(case_line(p, c, cid) for p, c, cid in items) + "\n")
-    rc, out, err = sh([exe, cf], timeout=3000)
+    rc, out, err = sh([exe, cf], timeout=3000, env={"OMP_NUM_THREADS": "1", "OPENBLAS_NUM_THREADS": "1"})
     results = {}
     for l in out.split("\n"):
         t = l.split()
@@ -176,7 +176,7 @@ def main():
     nrep = 0; keys = {}; nacc = 0; groups = {}; Kc = {}
     def rep(p, c, cid, key, msg):
         nonlocal nrep
-        k2 = "%s:%s:bias%d" % (key, p["trainer"], p["bias"]); keys[k2] = keys.get(k2, 0) + 1
+        k2 = "%s:%s:bias%d:warm%d" % (key, p["trainer"], p["bias"], c["warm"]); keys[k2] = keys.get(k2, 0) + 1
         if keys[k2] > 1 or nrep >= 5: return
         nrep += 1
         line = case_line(p, c, cid)
@@ -190,8 +190,9 @@ def main():
             rep(p, c, cid, "crash", "implementation crashed/stopped before run %s (rc=%s) %s" % (cid, rc, err.strip()[-200:])); break
         if isinstance(r, str):
             rep(p, c, cid, "exception", "trainer threw: " + r); continue
-        if id(p) not in Kc: Kc[id(p)] = kernel_matrix(p)
-        bad, obj = monitor(p, c, Kc[id(p)], r)
+        if id(p) not in Kc:
+            Kd = kernel_matrix(p); Kc[id(p)] = (Kd, [[f32(v) for v in row] for row in Kd])
+        bad, obj = monitor(p, c, Kc[id(p)][1 if c["ctype"] == "f" else 0], r)
         for key, msg in bad[:1]: rep(p, c, cid, key, "%s [%s shrink=%d prec=%d cache=%s warm=%d]" % (msg, p["trainer"], c["shrink"], c["prec"], c["ctype"], c["warm"]))
         if r[0] == 1:
             nacc += 1
